@@ -93,3 +93,7 @@ pub struct LeafData {
     /// The hash of the value carried in this leaf.
     pub value_hash: ValueHash,
 }
+
+#[cfg(kani)]
+#[path = "/verif/units/kani/core_trie.rs"]
+mod verif_kani;
